@@ -204,7 +204,7 @@ def enumerate_names(tier):
 
 def _enumerate_names(tier):
     cap1 = {"quick": 4, "thorough": 10 ** 6}[tier]
-    cap2 = {"quick": 0, "thorough": 6}[tier]
+    cap2 = {"quick": 0, "thorough": 12}[tier]
     tops = set(sys.stdlib_module_names)
     try:
         import importlib.metadata
@@ -231,7 +231,7 @@ def _enumerate_names(tier):
         kids, _ = _children(pkgdir, m.name)
         take = kids if m.name in allow_parents else kids[:cap1]
         subs.update(take)
-        for k in take[: (cap2 and 8)]:
+        for k in take if cap2 else ():
             kdir = os.path.join(pkgdir, k.split(".")[-1])
             if cap2 and os.path.isdir(kdir):
                 subs.update(_children(kdir, k)[0][:cap2])
@@ -1014,7 +1014,7 @@ class C17(ModelCheck):
         "Parameter ALLOWED_IMPORTS is read from const.py at run time; the allow-list is matched on the full dotted name as "
         "written (exact, case-sensitive). allow_all_imports=False: every top-level module name known to the interpreter "
         "(sys.stdlib_module_names + importlib.metadata.packages_distributions + pkgutil.iter_modules; names only) + the "
-        "first-level submodules of every installed package (first 4 per package in quick, all + a second level in "
+        "first-level submodules of every installed package (first 4 per package in quick; all, plus the first 12 second-level children of each, in "
         "thorough; all children of a parent of an allow-listed name) + a fixed submodule list + near-misses of every "
         "allow-listed name (prefix, suffix, truncation, case change, parent, child, sibling, re-rooted) + the allow-listed "
         "names themselves x forms {import N; import N as x; from N import a; from N import a as x; from N import *; import "
@@ -1029,7 +1029,7 @@ class C17(ModelCheck):
         "pyscript/modules/{subprocess.py, socket/__init__.py, socket/sub.py, json.py, string/__init__.py, zz_both(.py and "
         "package), modules importing os / math / the shadowing subprocess} and pyscript/apps/{shutil.py, ctypes/, "
         "subprocess.py} x script and app contexts x both option values. Relative from-imports never bind. Builtins: open, "
-        "compile, input, breakpoint, memoryview (+ __import__, __builtins__) read as a plain name in 31 syntactic contexts (generator expressions are not implemented by the interpreter) "
+        "compile, input, breakpoint, memoryview (+ __import__, __builtins__) read as a plain name in " + str(len(BUILTIN_CONTEXTS) - len(NATIVE_BODY_CONTEXTS)) + " syntactic contexts (generator expressions are not implemented by the interpreter) "
         "(module, function, nested/async function, global declaration, default argument, class body, method, "
         "comprehensions, eval/exec text at module and function level, f-string, attribute, after a lambda / "
         "@pyscript_compile / @pyscript_executor definition ...) -> NameError and no global holds the real builtin; print "
@@ -1057,8 +1057,24 @@ class C17(ModelCheck):
 
     # ---------------------------------------------------------------- enumeration
     def exhaustive_cases(self, tier):
+        return list(self.iter_cases(tier))
+
+    def iter_cases(self, tier):
+        """The whole enumeration, grouped by environment (allow_all_imports, configuration); lazily, because the
+        thorough tier has several hundred thousand restriction cases."""
         names, counts = enumerate_names(tier)
-        cases = []
+        counts["names"] = len(names)
+        self._counts = counts
+        n_restrict = 0
+        for c in self.restriction_cases(names):
+            n_restrict += 1
+            yield c
+        counts["restriction_cases"] = n_restrict
+        rest = self.other_cases()
+        rest.sort(key=lambda c: (env_key(c)[1], env_key(c)[0]))  # stable: (plain, False) first, one environment after the other
+        yield from rest
+
+    def restriction_cases(self, names):
         # (1) restrictions, allow_all_imports=False
         for n in names:
             is_allowed = n in allowed()
@@ -1070,8 +1086,10 @@ class C17(ModelCheck):
                     c = {"kind": "import", "allow_all": False, "cfg": "plain", "name": n, "form": form, "mode": mode, "attr": attr}
                     if form == "import_child" and is_allowed:
                         c["child"] = {"json": "decoder", "homeassistant.const": "zz_child", "re": "zz_child"}.get(n, "zz_child")
-                    cases.append(c)
-        n_restrict = len(cases)
+                    yield c
+
+    def other_cases(self):
+        cases = []
         # (2) allow_all_imports=True
         for n in HARMLESS + sorted(allowed()):
             attr = pick_attr(n)
@@ -1121,10 +1139,6 @@ class C17(ModelCheck):
             for ctx in LOG_CONTEXTS:
                 for msg in LOG_MESSAGES:
                     cases.append({"kind": "log", "allow_all": False, "cfg": "plain", "func": func, "ctx": ctx, "msg": msg})
-        counts["restriction_cases"] = n_restrict
-        counts["names"] = len(names)
-        self._counts = counts
-        cases.sort(key=lambda c: (env_key(c)[1], env_key(c)[0]))  # stable: groups one environment together
         return cases
 
     def n_random(self, tier):
@@ -1160,11 +1174,12 @@ class C17(ModelCheck):
             if shard_i == 0:
                 for c in self.fixed_regress():
                     self.check_case(res, c, "regress")
-            ex = self.exhaustive_cases(tier)
-            for idx in range(shard_i, len(ex), shard_n):
+            for idx, c in enumerate(self.iter_cases(tier)):
+                if idx % shard_n != shard_i:
+                    continue
                 if res.counters.get("mismatch_total", 0) >= 100:
                     break
-                self.check_case(res, ex[idx], "exhaustive")
+                self.check_case(res, c, "exhaustive")
                 res.count("exhaustive_cases")
             names, _ = enumerate_names(tier)
             self._rand_names = names
